@@ -143,7 +143,8 @@ var $newType = (size, kind, string, named, pkg, exported, constructor) => {
             typ.init = (elem, len) => {
                 typ.elem = elem;
                 typ.len = len;
-                typ.comparable = elem.comparable;
+                // Computed on demand: elem may be a named type whose init() has not run yet.
+                Object.defineProperty(typ, "comparable", { get: () => { return elem.comparable; } });
                 typ.keyFor = x => {
                     // Array.from, not $mapArray: for a typed array $mapArray allocates a typed array
                     // too, which would turn the key strings back into numbers ("NaN$7" -> NaN).
@@ -256,11 +257,8 @@ var $newType = (size, kind, string, named, pkg, exported, constructor) => {
             typ.init = (pkgPath, fields) => {
                 typ.pkgPath = pkgPath;
                 typ.fields = fields;
-                fields.forEach(f => {
-                    if (!f.typ.comparable) {
-                        typ.comparable = false;
-                    }
-                });
+                // Computed on demand: a field type may be a named type whose init() has not run yet.
+                Object.defineProperty(typ, "comparable", { get: () => { return fields.every(f => { return f.typ.comparable; }); } });
                 typ.keyFor = x => {
                     var val = x.$val;
                     return $mapArray(fields.filter(f => f.name !== "_"), f => {
